@@ -290,17 +290,6 @@ def run(ctx):
     c = 2 if ctx.thorough else 1
     tot = states = 0
     parts = []
-    for blocks in (1, 2) + ((3,) if ctx.thorough else ()):
-        for direction in ("h2e", "e2h"):
-            cfg = {"blocks": blocks, "direction": direction, "second": blocks == 1}
-            st = explore.explore(ctx, run_one, {"sched": k, "cut": c}, f"c17-{blocks}-{direction}", opts=cfg, chunk=8)
-            parts.append({"cfg": cfg, "executions": st["executions"], "outcomes": st["distinct_outcomes"], "levels_completed": st["levels_completed"]})
-            tot += st["executions"]
-            states += st["distinct_outcomes"]
-            if st["levels_completed"] < k + c:
-                ctx.exhaustive = False
-            if ctx.out_of_time():
-                break
     # the same with paced arrival (each chunk arrives while the receiver is already waiting): every <= 2 cut deviations, default schedule
     for blocks in (1, 2):
         for direction in ("h2e", "e2h"):
@@ -342,6 +331,17 @@ def run(ctx):
                 yield {"blocks": blocks, "direction": direction, "chunk_menu": False, "second": True, "tail": 244}
 
     n = ctx.run_cases(check_case, cases(), "c17-corruption", chunk=8)
+    # the deep exploration (K delays x C chunk deviations) comes last and every configuration gets an equal share of what is left of the budget
+    main_cfgs = [(blocks, direction) for blocks in (1, 2) + ((3,) if ctx.thorough else ()) for direction in ("h2e", "e2h")]
+    for idx, (blocks, direction) in enumerate(main_cfgs):
+        cfg = {"blocks": blocks, "direction": direction, "second": blocks == 1}
+        with ctx.time_slice(len(main_cfgs) - idx):
+            st = explore.explore(ctx, run_one, {"sched": k, "cut": c}, f"c17-{blocks}-{direction}", opts=cfg, chunk=8)
+        parts.append({"cfg": cfg, "executions": st["executions"], "outcomes": st["distinct_outcomes"], "levels_completed": st["levels_completed"]})
+        tot += st["executions"]
+        states += st["distinct_outcomes"]
+        if st["levels_completed"] < k + c:
+            ctx.exhaustive = False
     ctx.setcov("states", states + n)
     ctx.setcov("transitions", tot + n)
     ctx.setcov("traces_validated_against_impl", tot + n)
